@@ -190,6 +190,11 @@ func scenariosB(quick bool) ([]ScB, []gosched.Bounds) {
 	// never found keeps its submission in flight for minutes while the signaller goes on polling
 	slow := ScB{Name: "shipped-timeouts-polls-at-0s,60s,95s,130s(S1)", Clients: 1, Polls: []string{"S1", "S1", "S1", "S1"},
 		Gaps: []time.Duration{60 * time.Second, 35 * time.Second, 35 * time.Second}, MaxTry: 5, Timeout: time.Minute}
+	// batch size: one submission of n prices (daemon start / large feed-list change; MaxCurrentFeeds and the
+	// submit channel allow 300); default schedule plus every single environment fault
+	for _, n := range []int{1, 2, 99, 100, 101, 150, 300} {
+		add(ScB{Name: fmt.Sprintf("one-submission-of-%d-signals", n), Clients: 1, Polls: []string{fmt.Sprintf("N:%d", n)}, MaxTry: 2, Timeout: 2 * time.Second}, 0, 1)
+	}
 	if quick {
 		add(slow, 1, 1)
 		add(one2, 2, 2)
